@@ -239,7 +239,7 @@ def thresholds(ctx, report, folder):
 
 
 def eoc_edm(ctx, report):
-    fn = ctx.index.get_function(SCC, "SCCReader._translate_command")
+    fn = ctx.index.get_function(SCC, "SCCReader._translate_command", inline=True, keep=("_roll_up", "_flush_implicit_buffers", "_pop_on"))
     report.covered(fn)
     from .c05 import _literals_tested
     wordname = fn.params[1]
